@@ -1430,7 +1430,13 @@ def m_it_len(ctx, cty, a):
 @model("<_ as std::ops::Fn>::call", "<_ as std::ops::FnMut>::call_mut", "<_ as std::ops::FnOnce>::call_once")
 def m_fn_call(ctx, cty, a):
     args = a[1].fields if type(a[1]) is Agg else []
-    return ctx.call_closure(a[0], list(args))
+    f = a[0]
+    if deref(f) is None and cty.kind == "qpath":
+        # zero-sized (non-capturing) closure: its local is never assigned in MIR
+        t = cty.a.strip_refs()
+        if t.kind == "closure":
+            f = Agg("{closure@%s}" % t.a, None, [])
+    return ctx.call_closure(f, list(args))
 
 
 @model("std::vec::Vec::resize")
